@@ -23,11 +23,11 @@ TECHNIQUE = (
     "validity rule, the from-scratch metadata produced by the real daemon without cache, and an independent parse of the entry file"
 )
 RULE = (
-    "state = bytes and mtimes of the two ebuilds, the eclass copies (master/overlay) and the cache entry files (exact, used for "
+    "state = bytes and mtimes of the four ebuilds, the eclass copies (master/overlay) and the cache entry files (exact, used for "
     "de-duplication). Events: read; edit ebuild; touch ebuild; edit eclass; move eclass between master and overlay; remove "
     "eclass + un-inherit; remove eclass only; strip INHERIT from the entry; corrupt the entry's recorded ebuild checksum; poison a cached value "
     "(thorough adds: touch eclass; shadow the master eclass by a different overlay copy / remove the shadow; corrupt the "
-    "recorded eclass checksum; edit the ebuild without changing its mtime (md5 backend)). Every history starts with a read that populates "
+    "recorded eclass checksum; edit the ebuild without changing its mtime (md5 backend); replace the ebuild by different content with an OLDER mtime -- the last two also in every two-event quick history). Every history starts with a read that populates "
     "the cache, and every visited state ends with a probe read. Reference: the entry is valid iff it exists, its recorded "
     "ebuild checksum (md5 backend) / mtime (flat backend) equals the current one and every eclass it records exists in the "
     "stack with the recorded md5 (md5 backend) / directory and mtime (flat backend). A valid entry must be returned as "
@@ -38,7 +38,7 @@ ASSUMPTIONS = [
     "Excl: an otherwise valid entry that records eclasses but lacks INHERIT may be used or regenerated (pkgcore regenerates to upgrade the entry; the statement's first sentence does not mention it) -- both outcomes are accepted and followed",
     "Excl: flat (mtime) backend + content edits that keep the mtime (undetectable by the statement's own criterion)",
     "Excl: after removing an eclass that the ebuild still inherits the read must fail like the cacheless read does (returning the stale entry is a violation); what the failed regeneration leaves in the cache is unspecified, so such states are probed but not extended",
-    "two packages with the same inherit line (at most one eclass `e`); ebuild edits and entry corruption/poisoning act on the first package, eclass events concern both; two stacked repositories; cache backends flat_hash.database and flat_hash.md5_cache only",
+    "four packages: two with `inherit e z` (identical eclass set), `inherit w y` with y inheriting e, and `inherit z w e`, so the edited/moved/removed eclass e is the first of two, the middle of three (nested) and the last of three recorded eclasses while the other recorded eclasses (constant w, y, z in the master) stay untouched; ebuild edits and entry corruption/poisoning act on the first package, eclass events concern both; two stacked repositories; cache backends flat_hash.database and flat_hash.md5_cache only",
     "every read (event, probe, second probe) iterates ONE repository instance and reads the metadata of all packages while the package objects and the mappings they returned stay alive; every package is judged separately",
     "mtimes are whole seconds set explicitly by the harness; no wall-clock time enters the oracle",
     "from-scratch metadata is produced by the real daemon through a cacheless UnconfiguredTree on the same files and memoised by file contents (it depends on nothing else)",
@@ -50,14 +50,33 @@ BOUNDS = {
 
 T0 = 1_600_000_000
 EV_QUICK = ["R", "Eb", "Tb", "Ec", "Mv", "Rm", "Rx", "Si", "Cc", "Po"]
-EV_EXTRA = ["Te", "Sh", "Us", "Ce", "Eb0"]
+EV_EXTRA = ["Te", "Sh", "Us", "Ce", "Eb0", "Eo"]
 BACKENDS = ["md5", "flat"]
 TIME_CAP = {"thorough": 1500}
 
 
 # ----------------------------------------------------------------------------------------------- file contents
-def ebuild_text(ver, inherits):
-    return f'EAPI=8\nDESCRIPTION="desc{ver}"\nIUSE="eb{ver}"\n' + ("inherit e\n" if inherits else "") + "SLOT=0\n"
+# Eclass `e` is the one the events edit/move/remove; w, y, z are constant eclasses of the master repository.  The inherit lines
+# make `e` the first of two recorded eclasses (pkg and pkg2: identical lines, hence the identical eclass set), the middle of three
+# through the nested inherit in y (pkg3: w, e, y) and the last of three (pkg4: z, w, e).  After "remove eclass + un-inherit" the
+# second line of each pair applies.
+STATIC = {"w": 'IUSE="w"\n', "z": 'IUSE="z"\n', "y": 'inherit e\nIUSE="y"\n'}
+INHERIT_LINE = {
+    "pkg": {True: "e z", False: "z"},
+    "pkg2": {True: "e z", False: "z"},
+    "pkg3": {True: "w y", False: "w"},
+    "pkg4": {True: "z w e", False: "z w"},
+}
+SOURCED = {
+    "pkg": {True: ["e", "z"], False: ["z"]},
+    "pkg2": {True: ["e", "z"], False: ["z"]},
+    "pkg3": {True: ["w", "e", "y"], False: ["w"]},
+    "pkg4": {True: ["z", "w", "e"], False: ["z", "w"]},
+}
+
+
+def ebuild_text(pkg, ver, inherits):
+    return f'EAPI=8\nDESCRIPTION="desc{ver}"\nIUSE="eb{ver}"\ninherit {INHERIT_LINE[pkg][inherits]}\nSLOT=0\n'
 
 
 def eclass_text(ver):
@@ -69,7 +88,7 @@ def md5hex(text):
 
 
 # ----------------------------------------------------------------------------------------------- the world (real files + model)
-PKGS = ["pkg", "pkg2"]  # same inherit line; edit/corrupt/poison events act on PKGS[0], eclass events concern both
+PKGS = ["pkg", "pkg2", "pkg3", "pkg4"]  # same inherit line; edit/corrupt/poison events act on PKGS[0], eclass events concern both
 
 
 class World:
@@ -138,13 +157,15 @@ class World:
                 f.write(name + "\n")
             with open(os.path.join(base, "metadata", "layout.conf"), "w") as f:
                 f.write(f"masters = {masters}\ncache-formats =\n")
+        for n, text in STATIC.items():
+            self._write(os.path.join(self.m, "eclass", n + ".eclass"), text, T0)
         self.sync_files()
 
     def sync_files(self):
         """(re)write ebuilds and eclass copies from the model"""
         keep = self.cur
         for self.cur in PKGS:
-            self._write(self.ebuild_path(), ebuild_text(self.eb["ver"], self.eb["inherits"]), self.eb["mtime"])
+            self._write(self.ebuild_path(), ebuild_text(self.cur, self.eb["ver"], self.eb["inherits"]), self.eb["mtime"])
         self.cur = keep
         for where in ("m", "o"):
             p = self.eclass_path(where)
@@ -165,7 +186,7 @@ class World:
 
     def cur_eb_chf(self):
         if self.backend == "md5":
-            return md5hex(ebuild_text(self.eb["ver"], self.eb["inherits"]))
+            return md5hex(ebuild_text(self.cur, self.eb["ver"], self.eb["inherits"]))
         return str(self.eb["mtime"])
 
     def cur_ecl_record(self):
@@ -178,6 +199,21 @@ class World:
             return (md5hex(eclass_text(c["ver"])),)
         return (os.path.dirname(self.eclass_path(where)), str(c["mtime"]))
 
+    def current_of(self, name):
+        """what a correct entry records for the named eclass right now (None if it does not exist)"""
+        if name == "e":
+            return self.cur_ecl_record()
+        if self.backend == "md5":
+            return (md5hex(STATIC[name]),)
+        return (os.path.join(self.m, "eclass"), str(T0))
+
+    def cur_ecl_records(self):
+        """name -> record for every eclass the current package sources, in sourcing order"""
+        return {n: self.current_of(n) for n in SOURCED[self.cur][self.eb["inherits"]]}
+
+    def path_of(self, name):
+        return self.eclass_path(self.effective_eclass()) if name == "e" else os.path.join(self.m, "eclass", name + ".eclass")
+
     def entry_valid(self):
         e = self.entry
         if e is None:
@@ -186,7 +222,8 @@ class World:
             return False
         if e["ecl"] is None:
             return True
-        return e["ecl"] == self.cur_ecl_record()
+        # every eclass the entry records still exists with the recorded checksum / directory+mtime
+        return all(rec == self.current_of(n) for n, rec in e["ecl"].items())
 
     def content_key(self):
         where = self.effective_eclass()
@@ -259,7 +296,30 @@ class World:
                 if line:
                     k, _, v = line.partition("=")
                     d[k] = v
+        if "_eclasses_" in d:
+            d["_eclasses_"] = self._parse_eclasses(d["_eclasses_"])
         return d
+
+    def assert_positions(self):
+        """harness sanity: in the entry files the events' eclass e is recorded first / first / in the middle / last"""
+        want = {"pkg": 0, "pkg2": 0, "pkg3": 1, "pkg4": 2}
+        n = 2 if self.backend == "md5" else 3
+        keep = self.cur
+        for self.cur in PKGS:
+            with open(self.entry_path()) as f:
+                line = [l for l in f.read().split("\n") if l.startswith("_eclasses_=")][0]
+            names = line.split("=", 1)[1].split("\t")[::n]
+            if names.index("e") != want[self.cur] or names != SOURCED[self.cur][True]:
+                raise AssertionError(f"harness: {self.cur} records eclasses in order {names}, expected {SOURCED[self.cur][True]}")
+        self.cur = keep
+
+    def _parse_eclasses(self, text):
+        """recorded eclasses as a sorted tuple of (name, record...) -- the order in the file is not part of the property"""
+        f = text.split("\t")
+        n = 2 if self.backend == "md5" else 3
+        if len(f) % n:
+            return ("malformed", text)
+        return tuple(sorted(tuple(f[i : i + n]) for i in range(0, len(f), n)))
 
     def expected_entry_file(self):
         """the key/value lines a file holding self.entry must contain"""
@@ -269,11 +329,13 @@ class World:
         d = {k: v for k, v in e["meta"].items() if v}
         d["_md5_" if self.backend == "md5" else "_mtime_"] = e["eb_chf"]
         if e["ecl"] is not None:
-            d["_eclasses_"] = "\t".join(("e",) + tuple(e["ecl"]))
+            d["_eclasses_"] = tuple(sorted((n,) + tuple(rec) for n, rec in e["ecl"].items()))
         return d
 
     def write_entry_file(self):
         d = self.expected_entry_file()
+        if "_eclasses_" in d:
+            d["_eclasses_"] = "\t".join("\t".join((n,) + tuple(rec)) for n, rec in self.entry["ecl"].items())
         p = self.entry_path()
         with open(p, "w") as f:
             for k, v in sorted(d.items()):
@@ -347,13 +409,13 @@ class World:
                     msgs.append(f"invalid entry ({self.why_invalid()}): read differs from regeneration from scratch: {_d(got_meta, fresh_meta)}")
         if outcome == "regenerated":
             self.regens += 1
-            exp_ecl = {"e": self.eclass_path(self.effective_eclass())} if self.eb["inherits"] and self.effective_eclass() else {}
+            exp_ecl = {n: self.path_of(n) for n in SOURCED[self.cur][self.eb["inherits"]]}
             if got_ecl != exp_ecl:
                 msgs.append(f"inherited eclasses reported {got_ecl}, expected {exp_ecl}")
             self.entry = {
                 "meta": fresh_meta,
                 "eb_chf": self.cur_eb_chf(),
-                "ecl": self.cur_ecl_record() if self.eb["inherits"] else None,
+                "ecl": self.cur_ecl_records(),
                 "has_inherit": True,
             }
         # after a read the stored entry must be exactly the (new or untouched) entry, and it must validate
@@ -371,8 +433,10 @@ class World:
             return "no entry"
         if e["eb_chf"] != self.cur_eb_chf():
             return f"recorded ebuild chf {e['eb_chf']} != current {self.cur_eb_chf()}"
-        if e["ecl"] is not None and e["ecl"] != self.cur_ecl_record():
-            return f"recorded eclass {e['ecl']} != current {self.cur_ecl_record()}"
+        if e["ecl"] is not None:
+            for n, rec in e["ecl"].items():
+                if rec != self.current_of(n):
+                    return f"recorded eclass {n} {rec} != current {self.current_of(n)}"
         return "valid"
 
     # ---- events (edit/corrupt/poison act on PKGS[0])
@@ -383,7 +447,7 @@ class World:
         if self.broken():
             return out  # Excl: what a failed regeneration leaves behind is unspecified -> terminal state (it is still probed)
         for ev in events:
-            if ev in ("R", "Eb", "Tb"):
+            if ev in ("R", "Eb", "Tb", "Eo"):
                 ok = True
             elif ev == "Eb0":
                 ok = self.backend == "md5"
@@ -398,7 +462,7 @@ class World:
             elif ev == "Si":
                 ok = self.entry is not None and self.entry["has_inherit"] and "INHERIT" in self.entry["meta"]
             elif ev == "Ce":
-                ok = self.entry is not None and self.entry["ecl"] is not None
+                ok = self.entry is not None and self.entry["ecl"] is not None and "e" in self.entry["ecl"]
             elif ev in ("Cc", "Po"):
                 ok = self.entry is not None
             else:
@@ -421,6 +485,11 @@ class World:
             self.eb["mtime"] = self.tick()
         elif ev == "Eb0":
             self.eb["ver"] += 1
+        elif ev == "Eo":
+            # different content with a timestamp OLDER than anything recorded (rsync -t / cp -p / tar x of an older file)
+            self.eb["ver"] += 1
+            self.clock += 1
+            self.eb["mtime"] = T0 - 10 * self.clock
         elif ev == "Tb":
             self.eb["mtime"] = self.tick()
         elif ev == "Ec":
@@ -453,9 +522,9 @@ class World:
             self.entry["eb_chf"] = "0" * 32 if self.backend == "md5" else str(T0 - 777)
             self.write_entry_file()
         elif ev == "Ce":
-            rec = list(self.entry["ecl"])
+            rec = list(self.entry["ecl"]["e"])
             rec[-1] = "f" * 32 if self.backend == "md5" else str(T0 - 555)
-            self.entry["ecl"] = tuple(rec)
+            self.entry["ecl"]["e"] = tuple(rec)
             self.write_entry_file()
         elif ev == "Po":
             self.entry["meta"]["DESCRIPTION"] = "POISON" + str(self.clock)
@@ -557,6 +626,8 @@ class Explorer:
             w.read(self.memo_fresh)  # populating read
             self.reads += 1
             msgs = [f"populating read: {m}" for m in w.msgs]
+            if not msgs:
+                w.assert_positions()
             ev_cls = "populate:" + w.last_all
         else:
             parent = self.build(hist[:-1])
@@ -648,6 +719,13 @@ def tasks(tier):
                     out.append((be, "e", ("Eb0", b), 2))
                 for a in EV_QUICK:
                     out.append((be, "e", (a, "Eb0"), 2))
+            # ebuild replaced by different content with an OLDER mtime (newer = Eb, equal = Eb0 are the controls): alone and in
+            # every two-event history, both backends (the mtime-keyed cache must notice "differs", not only "newer")
+            out.append((be, "o", (), 1))
+            for b in EV_QUICK + ["Eo"]:
+                out.append((be, "o", ("Eo", b), 2))
+            for a in EV_QUICK:
+                out.append((be, "o", (a, "Eo"), 2))
         else:
             out.append((be, "q", (), 1))
             for a in EV_QUICK:
@@ -666,7 +744,7 @@ def work(task):
 
     logging.getLogger("pkgcore").setLevel(logging.CRITICAL)
     be, alpha, root, depth = task
-    events = EV_QUICK if alpha == "q" else (EV_QUICK + ["Eb0"] if alpha == "e" else EV_QUICK + EV_EXTRA)
+    events = {"q": EV_QUICK, "e": EV_QUICK + ["Eb0"], "o": EV_QUICK + ["Eo"]}.get(alpha, EV_QUICK + EV_EXTRA)
     res = run_partition(be, events, root, depth)
     if res is None:
         return {"evals": 0, "classes": {}, "viol": [], "samples": [], "counters": {"states": 0, "transitions": 0, "roots_not_enabled": 1}}
@@ -693,7 +771,7 @@ def replay(case):
     import logging
 
     logging.getLogger("pkgcore").setLevel(logging.CRITICAL)
-    events = EV_QUICK if case["events"] == "q" else EV_QUICK + EV_EXTRA
+    events = {"q": EV_QUICK, "e": EV_QUICK + ["Eb0"], "o": EV_QUICK + ["Eo"]}.get(case["events"], EV_QUICK + EV_EXTRA)
     ex = Explorer(case["backend"], events)
     try:
         st = None
